@@ -250,7 +250,10 @@ func C11(run *mon.Run) {
 			}
 			// crafted key for which a signature with a tiny s exists: pick k and s', solve for d.
 			// Then r||s' verifies and r||(s'+n) (which fits in 32 bytes) must not.
-			for _, sp := range []*big.Int{big.NewInt(1), big.NewInt(2), new(big.Int).Lsh(big.NewInt(1), 64), new(big.Int).SetBytes(mon.RandBytes(r, 12)), new(big.Int).Sub(new(big.Int).Sub(new(big.Int).Lsh(big.NewInt(1), 256), a.c.N), big.NewInt(1))} {
+			nm := func(d *big.Int) *big.Int { return new(big.Int).Sub(a.c.N, d) }
+			for _, sp := range []*big.Int{big.NewInt(1), big.NewInt(2), new(big.Int).Lsh(big.NewInt(1), 64), new(big.Int).SetBytes(mon.RandBytes(r, 12)), new(big.Int).Sub(new(big.Int).Sub(new(big.Int).Lsh(big.NewInt(1), 256), a.c.N), big.NewInt(1)),
+				// s just below the group order (and below it by 2^200, 2^223: between the orders of the two curves)
+				nm(big.NewInt(1)), nm(big.NewInt(2)), nm(new(big.Int).Lsh(big.NewInt(1), 200)), nm(new(big.Int).Lsh(big.NewInt(1), 223)), nm(new(big.Int).SetBytes(mon.RandBytes(r, 20)))} {
 				if sp.Sign() == 0 {
 					continue
 				}
@@ -316,6 +319,15 @@ func c11HasherErrors(run *mon.Run, r *rand.Rand) {
 			run.Eval(2)
 			if !crypto.IsInvalidHasherSizeError(e1) || ok || !crypto.IsInvalidHasherSizeError(e2) {
 				run.Violate("C11:short-hasher:"+a.n, fmt.Sprintf("%d-byte hasher: Sign err %v, Verify (%v,%v)", sz, e1, ok, e2), nil)
+			}
+		}
+		// the hasher is refused whatever the signature looks like
+		for _, wl := range [][]byte{nil, {}, make([]byte, 63), make([]byte, 65), make([]byte, 32), make([]byte, 128)} {
+			ok, e := sk.PublicKey().Verify(wl, []byte("m"), nil)
+			ok2, e2 := sk.PublicKey().Verify(wl, []byte("m"), constHasher("short", 1, 31))
+			run.Eval(2)
+			if ok || ok2 || !crypto.IsNilHasherError(e) || !crypto.IsInvalidHasherSizeError(e2) {
+				run.Violate("C11:bad-hasher-with-wrong-length-signature:"+a.n, fmt.Sprintf("signature of %d bytes: nil hasher (%v,%v), 31-byte hasher (%v,%v)", len(wl), ok, e, ok2, e2), nil)
 			}
 		}
 		_, e1 := sk.Sign([]byte("m"), nil)
